@@ -36,6 +36,7 @@ def run(ctx):
     check_strrep(ctx, prog)
     check_container_handles(ctx, prog)
     check_ranges(ctx, prog)
+    check_tostring(ctx, prog)
     # the element lifetime rules of Array, on the instantiations Var's containers use (Array<Var>, Array<char>, the Dic storage):
     # removing / inserting children must construct and destroy each child exactly once
     n_l = C01.check_lifetime(ctx, prog)
@@ -1111,3 +1112,62 @@ def check_ranges(ctx, prog):
             else:
                 ctx.undecided('C04.range', f['pq'], role, fwhere(f, e['l']), str(info))
     ctx.floor('C04.range', n, 1)
+
+
+
+def check_tostring(ctx, prog):
+    """C04.tostring: a number reports its value back through toString().  `Var::toString()` is interpreted (scansim; the result
+    String with the room it is constructed / resized with, snprintf writing at most the size it is given and returning the
+    untruncated length) for INT, FLOAT and NUMBER Vars holding the extremes and values whose text is long (15 significant digits
+    plus sign and exponent): no write or length outside the result, and the text read back as a number is the value (to the
+    digits the conversion prints)."""
+    import scansim
+    fs = [g for g in prog.fn('asl::Var::toString') if g.get('body')]
+    if not fs:
+        return
+    f = fs[0]
+    ctx.analysed(f)
+    role = 'toString:numbers are formatted inside the result and read back as the value'
+    cases = []
+    for tname, vals in (('INT', (0, 7, -1, 2147483647, -2147483648)),
+                        ('FLOAT', (0.5, -3.25, 16777216.0, 1.17549435e-38, -3.40282347e+38, 0.1)),
+                        ('NUMBER', (0.5, -0.0, 3.14159265358979, 1.0 / 3, -1.23456789012345e-100, 1.7976931348623157e+308, -2.2250738585072014e-308, 123456789012345.0, -98765432109876.5))):
+        tv = q.enum_value(prog, 'asl::Var::Type', tname)
+        if tv is None:
+            continue
+        for v in vals:
+            cases.append((tname, tv, v))
+    bad = und = None
+    runs = 0
+    for tname, tv, v in cases:
+        bufs = {}
+        mems = {'_type': tv, '_i': v if tname == 'INT' else 0, '_d': float(v) if tname != 'INT' else 0.0}
+        r = scansim.Run(prog, f, bufs, mems=mems, methods={'*': 'interp'}, objects=True)
+        runs += 1
+        try:
+            ret = r.run()
+        except scansim.OOB as o:
+            bad = 'Var(%r) of type %s: %s (the text does not fit the room the result String has: its length field then exceeds the buffer)' % (v, tname, o)
+            break
+        except (scansim.Unsupported, TypeError, KeyError, IndexError, ValueError) as u:
+            und = 'Var(%r) of type %s: %s' % (v, tname, u)
+            break
+        if not (isinstance(ret, tuple) and ret[0] == 'P' and ret[1] in bufs):
+            und = 'result of toString() is not the local string'
+            break
+        out = bufs[ret[1]]
+        text = ''.join(chr(x & 255) for x in out[:out.index(0)]) if 0 in out else None
+        try:
+            back = float(text)
+        except (TypeError, ValueError):
+            bad = 'Var(%r) of type %s gives the text %r, which is not a number' % (v, tname, text)
+            break
+        want = float(v) if tname == 'INT' else float('%.7g' % v) if tname == 'FLOAT' else float('%.15g' % v)
+        if back != want:
+            bad = 'Var(%r) of type %s gives the text %r, which reads back as %r' % (v, tname, text, back)
+            break
+    ctx.evaluations += runs
+    if und and not bad:
+        ctx.undecided('C04.tostring', f['pq'], role, fwhere(f), 'outside the interpreted fragment: %s' % und)
+    else:
+        ctx.check(bad is None, 'C04.tostring', f['pq'], role, fwhere(f), 'interpreted for %d numeric Vars (extremes, long mantissas, exponents)' % runs, bad or '')
